@@ -27,7 +27,7 @@ CONSTANTS
    BadModes,      \* invalid API mode arguments tried: subset of {-1, 99, 90, 91}; 99 = "n_modes", 90 = True, 91 = 1.5
    Rids, Convs, Lqs, Pids, LossQs,   \* VALID argument values tried (ids)
    BadVals,       \* TRUE: also try one invalid value per argument (reflectivity -0.5 / 1.5, convention "Q", loss -0.1 / 1.5)
-   SwapLevel,     \* 0 none, 1 transpositions, 2 + 3-cycles, 3 + invalid dictionaries
+   SwapLevel,     \* 0 none, 1 transpositions, 2 + 3-cycles and one-mode identity swaps, 3 + invalid dictionaries
    UIds,          \* unitary block ids, e.g. {"H","SH","C3"}
    HeraldNs,      \* herald photon numbers tried
    Targets,       \* objects that construction calls may target
@@ -249,7 +249,8 @@ SwapU(nu) ==
        trans == { <<<<a, b>>, <<b, a>>>> : <<a, b>> \in {x \in M \X M : x[1] < x[2]} }
        cyc == { <<<<a, b, c>>, <<b, c, a>>>> : <<a, b, c>> \in {x \in M \X M \X M : x[1] # x[2] /\ x[2] # x[3] /\ x[1] # x[3] /\ x[1] < x[2] /\ x[1] < x[3]} }
        bad == { <<<<0>>, <<1>>>>, <<<<0, nu>>, <<nu, 0>>>>, <<<<0, 1>>, <<1, 1>>>> }
-   IN (IF SwapLevel >= 1 THEN trans ELSE {}) \cup (IF SwapLevel >= 2 THEN cyc ELSE {}) \cup (IF SwapLevel >= 3 THEN bad ELSE {})
+       fix == { <<<<a>>, <<a>>>> : a \in M }          \* a complete permutation of ONE mode: legal, the identity
+   IN (IF SwapLevel >= 1 THEN trans ELSE {}) \cup (IF SwapLevel >= 2 THEN cyc \cup fix ELSE {}) \cup (IF SwapLevel >= 3 THEN bad ELSE {})
 BarU(nu) == { <<>>, <<99>> } \cup { <<m>> : m \in 0..(nu - 1) } \cup { <<0, nu - 1>> } \cup (IF BadModes # {} THEN { <<nu>> } ELSE {})
 HeraldArgs(nu) == (HeraldNs \X GM(nu) \X GM(nu)) \cup ({0} \X BM(nu) \X {0}) \cup ({0} \X {0} \X BM(nu))
 AddModes(nu) == GM(nu) \cup BM(nu)
